@@ -103,6 +103,23 @@ QUANTITIES = [("Duration", "s"), ("Duration", "min"), ("Duration", "h"), ("Lengt
 BAD_OBS = [float("nan"), "3.0", None, L.HUGE_INT, -L.HUGE_INT, [1.0], float("inf"), float("-inf"), True]
 
 
+def add_init_listener(rng: random.Random, case, seeds):
+    """An event-based statistic gets, in half of the cases, a listener of INITIALIZED_EVENT that reads the statistic
+    inside notify and (mode 'register') registers a seed observation; such a case contains an initialize() after
+    some observations."""
+    if case["cls"] in ("Tally", "Counter") or rng.random() < 0.5:
+        return case
+    ops = case["ops"]
+    case["init_listener"] = rng.choice(["read", "register", "register"])
+    if len(ops) >= 2 and not any(o["op"] == "init" for o in ops[1:]):
+        ops.insert(rng.randint(1, len(ops) - (1 if len(ops) > 2 else 0)), {"op": "init"})
+    if case["init_listener"] == "register":
+        for o in ops:
+            if o["op"] == "init" and rng.random() < 0.85:
+                o["seed"] = L.enc(rng.choice(seeds))
+    return case
+
+
 def gen_tally_case(rng: random.Random, idx: int, long_n: int = 0):
     variant = [("Tally", "none"), ("EventBasedTally", "none"), ("EventBasedTally", "all"),
                ("EventBasedTally", "one")][idx % 4]
@@ -147,8 +164,10 @@ def gen_tally_case(rng: random.Random, idx: int, long_n: int = 0):
     if rng.random() < 0.3:
         alphas.append(ALPHAS_BAD[rng.randrange(len(ALPHAS_BAD))])
     every = 1 if len(ops) <= 12 or (not long_n and rng.random() < 0.3) else max(2, len(ops) // 6)
-    return {"kind": "tally", "cls": variant[0], "subs": variant[1], "family": fam, "ops": ops,
+    case = {"kind": "tally", "cls": variant[0], "subs": variant[1], "family": fam, "ops": ops,
             "alphas": [L.enc(a) for a in alphas], "snap_every": every}
+    seeds = [v for v in vals if not isinstance(v, bool)][:3] + [5.0, 2, -1.5]
+    return case if long_n else add_init_listener(rng, case, seeds)
 
 
 def gen_counter_case(rng: random.Random, idx: int):
@@ -169,7 +188,7 @@ def gen_counter_case(rng: random.Random, idx: int):
             ops.append({"op": "reg" if variant[0] == "Counter" or rng.random() < 0.7 else "notify", "v": L.enc(v)})
     if not ops:
         ops.append({"op": "init"})
-    return {"kind": "counter", "cls": variant[0], "subs": variant[1], "ops": ops}
+    return add_init_listener(rng, {"kind": "counter", "cls": variant[0], "subs": variant[1], "ops": ops}, [3, 1, -2, 0])
 
 
 # ------------------------------------------------------------------ implementation side
@@ -187,6 +206,9 @@ def _make_collector():
         def notify(self, event):
             self.events.append((event.event_type.name, event.content))
     return Collector()
+
+
+_make_init_listener = L.make_init_listener
 
 
 def snap_tally(t, alphas):
@@ -230,6 +252,10 @@ def run_tally_case(case):
         for nme in names:
             t.add_listener(getattr(StatEvents, nme), col)
     alphas = [L.dec(a) for a in case["alphas"]]
+    lis = None
+    if case.get("init_listener") and case["cls"] != "Tally":      # subscribed AFTER the collector: it is notified last
+        lis = _make_init_listener(case["init_listener"], lambda s: snap_tally(s, alphas[:1]), lambda s, v: s.register(v))
+        t.add_listener(StatEvents.INITIALIZED_EVENT, lis)
     every = case["snap_every"]
     nops = len(case["ops"])
     steps = []
@@ -238,10 +264,14 @@ def run_tally_case(case):
         if col is not None:
             col.events.clear()
         if op["op"] == "init":
+            if lis is not None:
+                lis.seen, lis.errors, lis.seed = [], [], (L.dec_impl(op["seed"]) if "seed" in op else None)
             try:
                 t.initialize()
             except Exception as exc:  # noqa
                 rec["kind"] = type(exc).__name__
+            if lis is not None:
+                rec["init_seen"], rec["init_errors"] = list(lis.seen), list(lis.errors)
         else:
             v = L.dec_impl(op["v"])
             rec["pre"] = snap_key(snap_tally(t, alphas[:1]))
@@ -256,7 +286,7 @@ def run_tally_case(case):
                 rec["kind"] = type(exc).__name__
         if col is not None:
             rec["pub"] = list(col.events)
-        full = (i % every == every - 1) or i >= nops - 2
+        full = (i % every == every - 1) or i >= nops - 2 or (op["op"] == "init" and lis is not None)
         sn = snap_tally(t, alphas if full else alphas[:1])
         rec["post"] = snap_key(sn) if not full else snap_key({**sn, "ci": sn["ci"][:1]})
         if full:
@@ -276,11 +306,17 @@ def run_counter_case(case):
         col = _make_collector()
         for nme in [n for n, _ in COUNTER_EVENTS] + ["INITIALIZED_EVENT"]:
             c.add_listener(getattr(StatEvents, nme), col)
+    lis = None
+    if case.get("init_listener") and case["cls"] != "Counter":
+        lis = _make_init_listener(case["init_listener"], lambda s: (s.count(), s.n()), lambda s, v: s.register(v))
+        c.add_listener(StatEvents.INITIALIZED_EVENT, lis)
     steps = []
     for op in case["ops"]:
         rec = {"kind": "ok", "pub": None}
         if col is not None:
             col.events.clear()
+        if op["op"] == "init" and lis is not None:
+            lis.seen, lis.errors, lis.seed = [], [], (L.dec_impl(op["seed"]) if "seed" in op else None)
         try:
             if op["op"] == "init":
                 c.initialize()
@@ -294,6 +330,8 @@ def run_counter_case(case):
             rec["kind"] = type(exc).__name__
         if col is not None:
             rec["pub"] = list(col.events)
+        if op["op"] == "init" and lis is not None:
+            rec["init_seen"], rec["init_errors"] = list(lis.seen), list(lis.errors)
         rec["snap"] = (c.count(), c.n())
         rec["self"] = c
         steps.append(rec)
@@ -456,6 +494,39 @@ def check_snapshot(sn, eff, alphas, polluted):
     return None, full
 
 
+def not_fresh(sn, alphas):
+    """None when a getter snapshot is that of a tally with no observation: n 0, sum 0.0, everything else NaN"""
+    if sn["n"] != 0 or isinstance(sn["n"], bool):
+        return f"n() = {sn['n']!r}"
+    if sn["sum"] != ("v", 0.0):
+        return f"sum() = {sn['sum'][1]!r}"
+    for k in ["min", "max"] + [k for k, _, _ in GETTERS]:
+        if sn[k][0] != "v" or sn[k][1] == sn[k][1]:
+            return f"{GNAME.get(k, k)}() = {sn[k][1]!r}"
+    for a, c in zip(alphas, sn["ci"]):
+        if _valid_alpha(a) and not (c[0] == "p" and c[1] != c[1] and c[2] != c[2]):
+            return f"confidence_interval({a!r}) = {c[1:]!r}"
+    return None
+
+
+def check_init_listener(case, op, rec, who, fresh, i):
+    """the INITIALIZED_EVENT listener of the case: notified exactly once, without error, and what it read inside
+    notify is a freshly initialised statistic (nothing has been registered since THAT initialisation)"""
+    if "init_seen" not in rec:
+        return None
+    if len(rec["init_seen"]) != 1:
+        return (f"{who}-initialized-event-count-wrong", f"initialize() notified the INITIALIZED_EVENT listener {len(rec['init_seen'])} times", i)
+    stale = fresh(rec["init_seen"][0])
+    if stale:
+        return (f"{who}-initialized-event-before-reset",
+                f"{case['cls']}.initialize(): when INITIALIZED_EVENT was delivered the statistic still reported {stale}; "
+                "at that moment no observation has been registered since the initialisation", i)
+    if rec["init_errors"]:
+        return (f"{who}-register-inside-initialized-notification-raises",
+                f"registering {L.show(op['seed']) if 'seed' in op else ''} from the INITIALIZED_EVENT listener raised {rec['init_errors'][0]}", i)
+    return None
+
+
 def oracle_tally(case, steps):
     """Returns (violation or None, nontrivial: bool). violation = (signature, what, step)."""
     eff = []
@@ -484,9 +555,25 @@ def oracle_tally(case, steps):
         if op["op"] == "init":
             eff = []
             polluted = False
+            bad = check_init_listener(case, op, rec, "eventbased-tally", lambda sn: not_fresh(sn, alphas[:1]), i)
+            if bad:
+                return bad, False
+            seeded = "init_seen" in rec and case.get("init_listener") == "register" and "seed" in op
+            if seeded:
+                eff = [L.dec(op["seed"])]       # the listener's observation is the first one since this initialisation
             if rec["pub"] is not None and case["subs"] == "all":
-                if len(rec["pub"]) != 1 or rec["pub"][0][0] != "INITIALIZED_EVENT" or rec["pub"][0][1] is not rec["self"]:
-                    return ("eventbased-tally-initialize-publication-wrong", f"initialize published {[(e[0]) for e in rec['pub']]}", i), False
+                names = [e[0] for e in rec["pub"]]
+                want = ["INITIALIZED_EVENT"] + ([n for n, _ in TALLY_EVENTS] if seeded else [])
+                if names != want or rec["pub"][0][1] is not rec["self"]:
+                    return ("eventbased-tally-initialize-publication-wrong", f"initialize published {names}, expected {want}", i), False
+                if seeded and rec["snap"] is not None:
+                    for (nme, key), (_, content) in zip(TALLY_EVENTS, rec["pub"][1:]):
+                        wantv = float(eff[0]) if key is None else (rec["snap"][key] if key == "n" else rec["snap"][key][1])
+                        same = (content == wantv) if key == "n" else (isinstance(content, (int, float)) and L.same_float(float(content), wantv))
+                        if not same:
+                            return ("eventbased-tally-published-payload-differs",
+                                    f"{nme} (published for the observation registered inside the INITIALIZED_EVENT notification) carried "
+                                    f"{content!r} but the getter returns {wantv!r} right after initialize()", i), False
         elif ek != "ok":
             if rec["pre"] != rec["post"]:
                 return ("tally-rejected-observation-changes-state",
@@ -526,6 +613,13 @@ def oracle_counter(case, steps):
     for i, (op, rec) in enumerate(zip(case["ops"], steps)):
         if op["op"] == "init":
             ek, count, n = "ok", 0, 0
+            if rec["kind"] == "ok":
+                bad = check_init_listener(case, op, rec, "eventbased-counter",
+                                          lambda sn: None if sn == (0, 0) else f"count(), n() = {sn!r}", i)
+                if bad:
+                    return bad, False
+                if "init_seen" in rec and case.get("init_listener") == "register" and "seed" in op:
+                    count, n = int(L.dec(op["seed"])), 1
         elif op["op"] == "foreign":        # a different EventType that is merely named DATA_EVENT
             ek = "ValueError"
             if rec["kind"] != ek:
@@ -605,6 +699,19 @@ def c_tally_case(case, steps):
             if s is None:
                 return None
             sn = f"(Some {s})"
+        if op["op"] == "init" and rec.get("init_seen"):
+            # initialize() with the INITIALIZED_EVENT listener: the model resets (compared with what the listener read
+            # inside notify), then -- in mode 'register' -- registers the listener's seed observation
+            s0 = c_snap(rec["init_seen"][0], alphas[:1])
+            if s0 is None or len(rec["init_seen"]) != 1 or rec["init_errors"]:
+                return None
+            if case.get("init_listener") == "register" and "seed" in op:
+                items.append(f"({cop}, {ek}, (Some {s0}))")
+                items.append(f"((@TReg NumF {L.carg(L.dec(op['seed']))}), EOk, {sn})")
+                continue
+            items.append(f"({cop}, {ek}, (Some {s0}))")
+            cop = "(@TReg NumF ONaN)"      # a no-op step carrying the snapshot taken after initialize() returned
+            ek = "(EExn ValueError)"
         items.append(f"({cop}, {ek}, {sn})")
     return C.clist(items)
 
@@ -624,6 +731,14 @@ def c_counter_case(case, steps):
         ek = L.cekind(rec["kind"])
         if ek is None:
             return None
+        if op["op"] == "init" and rec.get("init_seen"):
+            if len(rec["init_seen"]) != 1 or rec["init_errors"]:
+                return None
+            c0, n0 = rec["init_seen"][0]
+            items.append(f"({cop}, {ek}, Some ({C.cz(c0)}, {C.cz(n0)}))")
+            if case.get("init_listener") == "register" and "seed" in op:
+                items.append(f"((CReg (CInt {C.cz(int(L.dec(op['seed'])))})), EOk, Some ({C.cz(rec['snap'][0])}, {C.cz(rec['snap'][1])}))")
+            continue
         items.append(f"({cop}, {ek}, Some ({C.cz(rec['snap'][0])}, {C.cz(rec['snap'][1])}))")
     return C.clist(items)
 
@@ -696,6 +811,10 @@ def describe_ops(case):
     for op in case["ops"]:
         if op["op"] == "foreign":
             out.append(f"notify(Event(<EventType named 'DATA_EVENT' defined in class Sensor>, {L.show(op['v'])}))")
+            continue
+        if op["op"] == "init" and case.get("init_listener"):
+            out.append("initialize()  [INITIALIZED_EVENT listener reads the statistic inside notify"
+                       + (f" and registers {L.show(op['seed'])}]" if case["init_listener"] == "register" and "seed" in op else "]"))
             continue
         out.append("initialize()" if op["op"] == "init" else f"{op['op']}({L.show(op['v'])})")
     return out
@@ -823,7 +942,9 @@ def main(tier: str) -> int:
         what = (b or bad)[1]
         run.violation(sig, what, {"class": small["cls"], "subscribers": small["subs"], "calls": describe_ops(small),
                                   "case": strip(small),
-                                  "how": "replay the calls on pydsol.core.statistics.<class>; 'notify' delivers the value as "
+                                  "how": "replay the calls on pydsol.core.statistics.<class>; with case.init_listener a listener of StatEvents.INITIALIZED_EVENT "
+                                         "(added after the other subscribers) reads all getters of event.content inside notify and, in mode "
+                                         "'register', calls event.content.register(seed of that initialize); 'notify' delivers the value as "
                                          "Event(StatEvents.DATA_EVENT, value); alphas of the case are passed to confidence_interval"})
 
     # ---- model vs implementation inside coqc
